@@ -87,18 +87,40 @@ template<typename C> static __attribute__((noinline)) void startWith(tulz::Threa
     t.start(callable, arg);      // start() takes it by value
 }
 
+// the same through the constructor Thread(callable, args...): the object is built in raw storage that is not zero
+template<typename C> static __attribute__((noinline)) tulz::Thread *constructWith(void *storage, int &arg) {
+    C callable;
+    return new (storage) tulz::Thread(callable, arg);
+}
+
+static bool viaConstructor = false;   // alternates between the cases of a process
+
 static void starterMain() {
     vs::point(TAG_IDLE);
-    tulz::Thread t;
-    theThread = &t;
+    alignas(tulz::Thread) unsigned char storage[sizeof(tulz::Thread)];
+    memset(storage, 0xA5, sizeof storage);
     int arg = 4242;              // caller-owned lvalue argument, alive until after join()
-    if (t.isJoinable()) oracle_fail("C20: a Thread that was never started reports isJoinable()");
-    switch (kind) {
-    case 0: startWith<Canary<8>>(t, arg); break;
-    case 1: startWith<Canary<256>>(t, arg); break;
-    case 2: expectedFn = expectedFn == 1 ? 2 : 1; if (expectedFn == 1) t.start(&plainFunction, arg); else t.start(&otherFunction, arg); break;
-    default: t.start(new Job()); break;
+    tulz::Thread *tp;
+    viaConstructor = !viaConstructor;
+    if (viaConstructor && kind != 3) {
+        theThread = reinterpret_cast<tulz::Thread *>(storage);     // members are initialised before the constructor body starts the thread
+        switch (kind) {
+        case 0: tp = constructWith<Canary<8>>(storage, arg); break;
+        case 1: tp = constructWith<Canary<256>>(storage, arg); break;
+        default: expectedFn = expectedFn == 1 ? 2 : 1; tp = expectedFn == 1 ? new (storage) tulz::Thread(&plainFunction, arg) : new (storage) tulz::Thread(&otherFunction, arg); break;
+        }
+    } else {
+        tp = new (storage) tulz::Thread();
+        theThread = tp;
+        if (tp->isJoinable()) oracle_fail("C20: a Thread that was never started reports isJoinable()");
+        switch (kind) {
+        case 0: startWith<Canary<8>>(*tp, arg); break;
+        case 1: startWith<Canary<256>>(*tp, arg); break;
+        case 2: expectedFn = expectedFn == 1 ? 2 : 1; if (expectedFn == 1) tp->start(&plainFunction, arg); else tp->start(&otherFunction, arg); break;
+        default: tp->start(new Job()); break;
+        }
     }
+    tulz::Thread &t = *tp;
     if (!t.isJoinable()) oracle_fail("C20: after start() the Thread is not joinable");
     vs::point(TAG_AFTER_START);
     clobberStack();
@@ -107,6 +129,7 @@ static void starterMain() {
     if (t.isJoinable()) oracle_fail("C20: the Thread is still joinable after join() returned");
     vs::point(TAG_JOINED);
     theThread = nullptr;
+    t.~Thread();
 }
 
 int main() {
